@@ -2,54 +2,10 @@ import Nstd.Xml.LemmasComment
 /-  a processing instruction in front of the root element is stepped over -/
 namespace Nstd.Xml
 
-/-- without any `<` the outer loop of `skipSpace` stops at the latest at a byte that is no white space -/
-theorem skipLoop_bound (t : Bytes) (lo m : Nat) (hm : m < t.length)
-    (hms : isSpace (t.getD m 0) = false) (hm60 : t.getD m 0 ≠ 60)
-    (hno : ∀ j, lo ≤ j → j < m → t.getD j 0 ≠ 60) :
-    ∀ (f : Nat) (p : Pos) (ce : Option Pos), lo ≤ p.pos → p.pos ≤ m → m - p.pos < f →
-      ∃ q, skipLoop t f false p ce = .ok (q, ce) ∧ p.pos ≤ q.pos ∧ q.pos ≤ m := by
-  intro f
-  induction f with
-  | zero => intro p ce _ _ h; omega
-  | succ f ih =>
-    intro p ce hlo hp hf
-    by_cases hpm : p.pos = m
-    · have hd : t.drop p.pos = t.getD m 0 :: t.drop (m + 1) := by
-        rw [hpm, List.drop_eq_getElem_cons hm]
-        simp [List.getD_eq_getElem?_getD, List.getElem?_eq_getElem hm]
-      exact ⟨p, skipLoop_noop f ce hd hms hm60, Nat.le_refl _, hp⟩
-    · have hlt : p.pos < m := by omega
-      have h60 := hno p.pos hlo hlt
-      simp only [skipLoop]
-      rw [peek_eq (by omega)]; simp only [Res.ok_bind]
-      by_cases h13 : t.getD p.pos 0 = 13
-      · rw [if_pos h13, peek_eq (by omega)]; simp only [Res.ok_bind]
-        by_cases hd10 : t.getD (p.pos + 1) 0 = 10
-        · have hne : m ≠ p.pos + 1 := by
-            intro e; rw [e, hd10] at hms; revert hms; decide
-          simp only [hd10, if_true]
-          obtain ⟨q, hq, q1, q2⟩ := ih ⟨p.line + 1, p.pos + 2, p.pos + 2⟩ ce (by simp; omega) (by simp; omega) (by simp; omega)
-          exact ⟨q, hq, by simp at q1; omega, q2⟩
-        · simp only [hd10, if_false]
-          obtain ⟨q, hq, q1, q2⟩ := ih ⟨p.line + 1, p.pos + 1, p.pos + 1⟩ ce (by simp; omega) (by simp; omega) (by simp; omega)
-          exact ⟨q, hq, by simp at q1; omega, q2⟩
-      rw [if_neg h13]
-      by_cases h10 : t.getD p.pos 0 = 10
-      · rw [if_pos h10]
-        obtain ⟨q, hq, q1, q2⟩ := ih ⟨p.line + 1, p.pos + 1, p.pos + 1⟩ ce (by simp; omega) (by simp; omega) (by simp; omega)
-        exact ⟨q, hq, by simp at q1; omega, q2⟩
-      rw [if_neg h10, if_neg h60]
-      by_cases hsp : isSpace (t.getD p.pos 0) = true
-      · rw [if_pos hsp]
-        obtain ⟨q, hq, q1, q2⟩ := ih ⟨p.line, p.pos + 1, p.ls⟩ ce (by simp; omega) (by simp; omega) (by simp; omega)
-        exact ⟨q, hq, by simp at q1; omega, q2⟩
-      · rw [if_neg hsp]
-        exact ⟨p, rfl, Nat.le_refl _, hp⟩
-
-/-- the scan for the end of a processing instruction whose body has neither `?>` nor `<` -/
+/-- the scan for the end of a processing instruction whose body has no `?>` -/
 theorem piInner_walk (t : Bytes) (lo m : Nat) (hm : m + 2 ≤ t.length)
     (h1 : t.getD m 0 = 63) (h2 : t.getD (m + 1) 0 = 62)
-    (hbody : ∀ i, lo ≤ i → i < m → (t.getD i 0 = 63 → t.getD (i + 1) 0 ≠ 62) ∧ t.getD i 0 ≠ 60) (sp : Pos) :
+    (hbody : ∀ i, lo ≤ i → i < m → t.getD i 0 = 63 → t.getD (i + 1) 0 ≠ 62) (sp : Pos) :
     ∀ (n : Nat) (p : Pos), lo ≤ p.pos → p.pos ≤ m → m - p.pos ≤ n →
       ∃ q : Pos, q.pos = m + 2 ∧ (PosOK t p → PosOK t q) ∧ ∀ f, n < f → piInner t f sp p = .ok q := by
   intro n
@@ -98,51 +54,68 @@ theorem piInner_walk (t : Bytes) (lo m : Nat) (hm : m + 2 ≤ t.length)
         rw [if_pos trivial, peek_eq (by omega), h2]; simp only [Res.ok_bind]
         rw [if_pos trivial]
     · have hlt : p.pos + k < m := by omega
+      have hltl : p.pos + k < t.length := by omega
       by_cases h63 : t.getD (p.pos + k) 0 = 63
       · -- a `?` that does not end the instruction
-        have hne62 := (hbody _ (by omega) hlt).1 h63
-        obtain ⟨q1, hq1, hq1a, hq1b⟩ := skipLoop_bound t lo m (by omega) (by rw [h1]; decide) (by rw [h1]; decide)
-          (fun j hj1 hj2 => (hbody j hj1 hj2).2) (t.length + 2) ⟨p.line, p.pos + k + 1, p.ls⟩ none
-          (by simp; omega) (by simp; omega) (by simp; omega)
-        have hsk : skipSpace t ⟨p.line, p.pos + k + 1, p.ls⟩ = .ok (q1, none) := hq1
-        simp at hq1a hq1b
-        obtain ⟨q, hq, hq2, hq3⟩ := ih (m - q1.pos) (by omega) q1 (by omega) hq1b (Nat.le_refl _)
+        have hne62 := hbody _ (by omega) hlt h63
+        obtain ⟨q, hq, hq2, hq3⟩ := ih (m - (p.pos + k + 1)) (by omega) ⟨p.line, p.pos + k + 1, p.ls⟩
+          (by simp; omega) (by simp; omega) (Nat.le_refl _)
         refine ⟨q, hq, ?_, ?_⟩
         · intro hp
-          have hg := skipSpace_good t _ ((hadv hp).adv1 (show p.pos + k < t.length by omega) (show t.getD (p.pos + k) 0 ≠ 13 by rw [h63]; decide) (show t.getD (p.pos + k) 0 ≠ 10 by rw [h63]; decide))
-          simp only at hg
-          rw [hsk] at hg
-          exact hq2 hg.1
+          exact hq2 ((hadv hp).adv1 hltl (by rw [h63]; decide) (by rw [h63]; decide))
         · intro f hf
           obtain ⟨f, rfl⟩ : ∃ g, f = g + 1 := ⟨f - 1, by omega⟩
           rw [piInner, cstr_le hple]; simp only [Res.ok_bind]
           rw [hidx]; simp only
           rw [peek_eq (by omega)]; simp only [Res.ok_bind]
           rw [if_pos h63, peek_eq (by omega)]; simp only [Res.ok_bind]
-          rw [if_neg hne62, hsk]; simp only [Res.ok_bind]
+          rw [if_neg hne62]
           exact hq3 f (by omega)
-      have hne63 : t.getD (p.pos + k) 0 ≠ 63 := h63
-      have hlb := piStop_cases hstop hne63
-      -- skipSpace consumes the line break and the white space behind it
-      obtain ⟨q1, hq1, hq1a, hq1b⟩ := skipLoop_bound t lo m (by omega) (by rw [h1]; decide) (by rw [h1]; decide)
-        (fun j hj1 hj2 => (hbody j hj1 hj2).2) (t.length + 2) ⟨p.line, p.pos + k, p.ls⟩ none
-        (by simp; omega) (by simp; omega) (by simp; omega)
-      have hsk : skipSpace t ⟨p.line, p.pos + k, p.ls⟩ = .ok (q1, none) := hq1
-      obtain ⟨r, hr, hr1, _⟩ := skipSpace_adv_lb t ⟨p.line, p.pos + k, p.ls⟩ (by simp; omega) (by simpa using hlb)
-      rw [hsk] at hr; cases hr
-      simp at hr1 hq1b
-      obtain ⟨q, hq, hq2, hq3⟩ := ih (m - q1.pos) (by omega) q1 (by omega) hq1b (Nat.le_refl _)
+      by_cases h13 : t.getD (p.pos + k) 0 = 13
+      · by_cases hd10 : t.getD (p.pos + k + 1) 0 = 10
+        · have hne : p.pos + k + 1 ≠ m := by
+            intro e; rw [e, h1] at hd10; revert hd10; decide
+          obtain ⟨q, hq, hq2, hq3⟩ := ih (m - (p.pos + k + 2)) (by omega) ⟨p.line + 1, p.pos + k + 2, p.pos + k + 2⟩
+            (by simp; omega) (by simp; omega) (Nat.le_refl _)
+          refine ⟨q, hq, ?_, ?_⟩
+          · intro hp
+            exact hq2 ((hadv hp).crlf (by simp; omega) h13 hd10)
+          · intro f hf
+            obtain ⟨f, rfl⟩ : ∃ g, f = g + 1 := ⟨f - 1, by omega⟩
+            rw [piInner, cstr_le hple]; simp only [Res.ok_bind]
+            rw [hidx]; simp only
+            rw [peek_eq (by omega)]; simp only [Res.ok_bind]
+            rw [if_neg h63, if_pos h13, peek_eq (by omega)]; simp only [Res.ok_bind]
+            simp only [hd10, if_true]
+            exact hq3 f (by omega)
+        · obtain ⟨q, hq, hq2, hq3⟩ := ih (m - (p.pos + k + 1)) (by omega) ⟨p.line + 1, p.pos + k + 1, p.pos + k + 1⟩
+            (by simp; omega) (by simp; omega) (Nat.le_refl _)
+          refine ⟨q, hq, ?_, ?_⟩
+          · intro hp
+            exact hq2 ((hadv hp).cr hltl h13 hd10)
+          · intro f hf
+            obtain ⟨f, rfl⟩ : ∃ g, f = g + 1 := ⟨f - 1, by omega⟩
+            rw [piInner, cstr_le hple]; simp only [Res.ok_bind]
+            rw [hidx]; simp only
+            rw [peek_eq (by omega)]; simp only [Res.ok_bind]
+            rw [if_neg h63, if_pos h13, peek_eq (by omega)]; simp only [Res.ok_bind]
+            simp only [hd10, if_false]
+            exact hq3 f (by omega)
+      have h10 : t.getD (p.pos + k) 0 = 10 := by
+        rcases piStop_cases hstop h63 with h | h
+        · exact absurd h h13
+        · exact h
+      obtain ⟨q, hq, hq2, hq3⟩ := ih (m - (p.pos + k + 1)) (by omega) ⟨p.line + 1, p.pos + k + 1, p.pos + k + 1⟩
+        (by simp; omega) (by simp; omega) (Nat.le_refl _)
       refine ⟨q, hq, ?_, ?_⟩
       · intro hp
-        have hg := skipSpace_good t _ (hadv hp)
-        rw [hsk] at hg
-        exact hq2 hg.1
+        exact hq2 ((hadv hp).lf hltl h10)
       · intro f hf
         obtain ⟨f, rfl⟩ : ∃ g, f = g + 1 := ⟨f - 1, by omega⟩
         rw [piInner, cstr_le hple]; simp only [Res.ok_bind]
         rw [hidx]; simp only
         rw [peek_eq (by omega)]; simp only [Res.ok_bind]
-        rw [if_neg hne63, hsk]; simp only [Res.ok_bind]
+        rw [if_neg h63, if_neg h13]
         exact hq3 f (by omega)
 
 /-- one round of the loop over processing instructions -/
@@ -159,15 +132,14 @@ theorem piLoop_step (t : Bytes) (p : Pos) (body rest : Bytes)
   obtain ⟨hm1lt, m1, _⟩ := drop_cons hdm1
   have hd2'' : t.drop (p.pos + 2) = (body ++ [63]) ++ (62 :: rest) := by rw [hd2']; simp
   have hbody : ∀ i, p.pos + 2 ≤ i → i < p.pos + 2 + body.length →
-      (t.getD i 0 = 63 → t.getD (i + 1) 0 ≠ 62) ∧ t.getD i 0 ≠ 60 := by
+      t.getD i 0 = 63 → t.getD (i + 1) 0 ≠ 62 := by
     intro i hi1 hi2
     have e1 := drop_getD hd2' (show i - (p.pos + 2) < body.length by omega)
     rw [show p.pos + 2 + (i - (p.pos + 2)) = i by omega] at e1
     have e2 := drop_getD hd2'' (show i - (p.pos + 2) + 1 < (body ++ [63]).length by simp; omega)
     rw [show p.pos + 2 + (i - (p.pos + 2) + 1) = i + 1 by omega] at e2
-    obtain ⟨g1, g2⟩ := hb (i - (p.pos + 2)) (by omega)
     rw [e1, e2]
-    exact ⟨g2, g1⟩
+    exact hb (i - (p.pos + 2)) (by omega)
   obtain ⟨q, hq1, hq2, hq3⟩ := piInner_walk t (p.pos + 2) (p.pos + 2 + body.length) (by omega) m0 m1 hbody p
     body.length ⟨p.line, p.pos + 2, p.ls⟩ (by simp) (by simp) (by simp)
   have hlen : body.length ≤ t.length := by omega
